@@ -983,10 +983,13 @@ class Commander:
         """
         # check the completion of current ApplicationJobs
         for application_name, application_job in list(self.current_jobs.items()):
-            if not application_job.in_progress():
+            # NOTE: 'after' may trigger new jobs whose immediate failure re-enters this method,
+            #       so the entry may already have been removed, or replaced by a new job on the same application
+            if (not application_job.in_progress()
+                    and self.current_jobs.get(application_name) is application_job):
                 # nothing more to do for this application
-                self.after(application_job)
                 del self.current_jobs[application_name]
+                self.after(application_job)
         # if no more current_jobs, pop lower sequence from planned_jobs and trigger application_jobs
         self.logger.debug(f'{self.class_name}.next: current_jobs={list(self.current_jobs.keys())}')
         if self.planned_jobs and not self.current_jobs:
